@@ -80,6 +80,7 @@ type Task struct {
 
 	spawns   int
 	reaped   bool
+	killMe   bool
 	panicVal any
 	panicStk string
 
@@ -141,6 +142,7 @@ type Sim struct {
 
 	mainDone bool
 	horizon  bool
+	deadInc  [64]bool // incarnations that have "crashed" (plain array: read by tasks)
 	rootCtx  context.Context
 	cancel   context.CancelFunc
 	hmu      sync.Mutex // harness critical sections (Crit)
@@ -665,6 +667,9 @@ func (s *Sim) setKilling() { s.killing = true }
 
 //go:norace
 func (t *Task) release() {
+	if s := cur; s != nil && t.Inc > 0 && t.Inc < len(s.deadInc) && s.deadInc[t.Inc] {
+		t.killMe = true
+	}
 	t.parked = false
 	t.released = true
 	t.cond.Signal()
@@ -741,7 +746,7 @@ func (s *Sim) register(t *Task) {
 
 //go:norace
 func (t *Task) park(s *Sim, kind int, key any, site string, aux any) {
-	if s.killing {
+	if s.killing || t.killMe {
 		runtime.Goexit()
 	}
 	t.reqKind, t.reqKey, t.reqSite, t.reqAux = kind, key, site, aux
@@ -751,7 +756,7 @@ func (t *Task) park(s *Sim, kind int, key any, site string, aux any) {
 	for !t.released {
 		t.cond.Wait()
 	}
-	if s.killing {
+	if s.killing || t.killMe {
 		runtime.Goexit()
 	}
 }
@@ -821,6 +826,67 @@ func stackTrace() []byte {
 	buf := make([]byte, 16<<10)
 	n := runtime.Stack(buf, false)
 	return buf[:n]
+}
+
+// GoInc starts fn as the root task of incarnation inc (> 0) of the system
+// under test; every task it spawns inherits the incarnation.
+func GoInc(site string, inc int, fn func()) *Task {
+	t := Spawn(site)
+	if t == nil {
+		go fn()
+		return nil
+	}
+	t.Inc = inc
+	go func() {
+		Start(t)
+		defer End(t)
+		fn()
+	}()
+	return t
+}
+
+// KillInc "crashes" incarnation inc: each of its tasks is retired with
+// runtime.Goexit the next time it would be released (tasks blocked on timers
+// or on the environment are retired when they wake).  In-memory state of the
+// incarnation is simply abandoned by the harness.
+//
+//go:norace
+func KillInc(inc int) {
+	s := cur
+	if s == nil || inc <= 0 || inc >= len(s.deadInc) {
+		return
+	}
+	s.deadInc[inc] = true
+}
+
+// IncAlive reports whether the calling task belongs to a live incarnation
+// (tasks outside any incarnation are always alive).
+//
+//go:norace
+func IncAlive() bool {
+	s := cur
+	if s == nil {
+		return true
+	}
+	t := s.me()
+	if t == nil || t.Inc <= 0 || t.Inc >= len(s.deadInc) {
+		return true
+	}
+	return !s.deadInc[t.Inc]
+}
+
+// CurrentInc returns the incarnation of the calling task (0 = none).
+//
+//go:norace
+func CurrentInc() int {
+	s := cur
+	if s == nil {
+		return 0
+	}
+	if t := s.me(); t != nil {
+		return t.Inc
+	}
+	return 0
 }
 
 // Go runs fn as a new task (harness side; instrumented code uses Spawn/Start/End).
